@@ -109,3 +109,20 @@ Example C16_float_header :
   rescale_slope_intercept (inject_Z 100) (1 # 2) (-1024) = (-974)%Z /\
   hounsfield 100 (mkHdr (7 # 10, 2 # 5) (1 # 2) (-1024) 7) == inject_Z (-974).
 Proof. split; vm_compute; reflexivity. Qed.
+
+(* Longest / SmallestMaxSize: image path and header hook are both generated; the spacing is multiplied by the very
+   factor the image is zoomed by (max_size / longest side, max_size / shortest side) *)
+From DV.model Require Import Arrays NpRt.
+From DV.proofs Require Import Resample.
+Theorem C16_max_size_image_and_header_share_the_factor : forall v d m ip H W D,
+  vshape v = (H, W, D) -> (0 < H)%Z -> (0 < W)%Z -> (0 < D)%Z ->
+  (let f := inject_Z m / inject_Z (Z.max (Z.max H W) D) in
+   LongestMaxSize_apply v m ip W H D = Ok (zoomed f ip v) /\
+   exists d', LongestMaxSize_apply_to_dicom d m ip W H D = Ok d' /\
+     h_spacing d' = (fst (h_spacing d) * f, snd (h_spacing d) * f) /\ same_but_spacing d' d) /\
+  (let f := inject_Z m / inject_Z (Z.min (Z.min H W) D) in
+   SmallestMaxSize_apply v m ip W H D = Ok (zoomed f ip v) /\
+   exists d', SmallestMaxSize_apply_to_dicom d m ip W H D = Ok d' /\
+     h_spacing d' = (fst (h_spacing d) * f, snd (h_spacing d) * f) /\ same_but_spacing d' d).
+Proof. exact max_size_image_and_header_share_the_factor. Qed.
+Print Assumptions C16_max_size_image_and_header_share_the_factor.
